@@ -187,6 +187,11 @@ def patterns(tier):
             yield T(cls, f1, f2)
         for f1, f2 in var_pairs():
             yield T(cls, f1, f2)
+    if tier == "thorough":  # every ordered pair of single field specs (different fields) over the full families
+        for cls in ("*", ("PA",)):
+            for f1, f2 in itertools.product(singles, repeat=2):
+                if f1[0] != f2[0]:
+                    yield T(cls, f1, f2)
     if tier == "thorough":  # three field specs over a reduced family, every order of the fields
         red3 = {"s": prop_specs("s")[:3], "n": [prop_specs("n")[0], prop_specs("n")[8]], "o": child_specs(1)[:3] + child_specs(1)[4:6],
                 "items": [s for s in seq_specs(False) if _small(s)][:9]}
